@@ -19,7 +19,7 @@ type c03 struct{}
 func (c03) ID() string    { return "C03" }
 func (c03) Level() string { return "exploration" }
 func (c03) Rule() string {
-	return "grammar products, each complete within its domain: ports [IP:][HOST[-HOST]:]CONTAINER[-CONTAINER][/PROTO] (4 IPs x 5 host forms x 3 container forms x 4 protocols + bare integers; ranges starting at 15 (container, host) bases incl. every decimal-width boundary 9|10 .. 9999|10000); volumes [SOURCE:]TARGET[:MODE,...] (9 sources x 3 targets x mode sets of <=2 from 8); devices SRC[:DST[:PERM]]; secrets/configs by name; build string; env_file / label_file string, list, long; depends_on and networks lists; extends string; healthcheck test string; external {name}; KEY[=VALUE] lists vs mappings (6 value kinds x 4 key shapes: plain, x- prefixed, dotted, mixed) at 8 service positions and on the labels of every resource kind; string-or-list at 6 positions; command/entrypoint strings over <=3 words from 10 word shapes (plain, single/double quoted, escaped blank, empty, words containing no-break space, ideographic space, vertical tab, form feed); durations and byte sizes against numeric literals; each short form loaded next to the reference long form written from the specification grammar and compared on the whole project; near misses must be errors. distinct = distinct short-form strings"
+	return "grammar products, each complete within its domain: ports [IP:][HOST[-HOST]:]CONTAINER[-CONTAINER][/PROTO] (4 IPs x 5 host forms x 3 container forms x 4 protocols + bare integers; ranges starting at 15 (container, host) bases (quick: reduced IP / protocol forms off the first base; thorough: full product) incl. every decimal-width boundary 9|10 .. 9999|10000); volumes [SOURCE:]TARGET[:MODE,...] (9 sources x 3 targets x mode sets of <=2 from 8); devices SRC[:DST[:PERM]]; secrets/configs by name; build string; env_file / label_file string, list, long; depends_on and networks lists; extends string; healthcheck test string; external {name}; KEY[=VALUE] lists vs mappings (6 value kinds x 4 key shapes: plain, x- prefixed, dotted, mixed) at 8 service positions and on the labels of every resource kind; string-or-list at 6 positions; command/entrypoint strings over <=3 (thorough: 4) words from 10 word shapes (plain, single/double quoted, escaped blank, empty, words containing no-break space, ideographic space, vertical tab, form feed); durations and byte sizes against numeric literals; each short form loaded next to the reference long form written from the specification grammar and compared on the whole project; near misses must be errors. distinct = distinct short-form strings"
 }
 func (c03) Assumptions() []string {
 	return []string{
@@ -127,7 +127,7 @@ func c03check(cs c03case) core.Outcome {
 	return core.Outcome{Class: cs.short, Sample: sample}
 }
 
-func c03ports() []c03case {
+func c03ports(quick bool) []c03case {
 	var out []c03case
 	ips := []string{"", "127.0.0.1", "0.0.0.0", "[::1]"}
 	hosts := []string{"none", "single", "range2", "range3", "empty"}
@@ -150,8 +150,8 @@ func c03ports() []c03case {
 							// IP given: a host part (possibly empty) is mandatory by the grammar
 							continue
 						}
-						if (b.c != 3000 || b.h != 8000) && (ip == "0.0.0.0" || ip == "[::1]" || pr == "tcp" || pr == "sctp") {
-							continue // the other bases: one IP form and two protocol forms
+						if quick && (b.c != 3000 || b.h != 8000) && (ip == "0.0.0.0" || ip == "[::1]" || pr == "tcp" || pr == "sctp") {
+							continue // quick, the other bases: one IP form and two protocol forms (thorough: the full product)
 						}
 						cn := map[string]int{"single": 1, "range2": 2, "range3": 3}[ct]
 						hn := map[string]int{"none": 0, "empty": 0, "single": 1, "range2": 2, "range3": 3}[h]
@@ -203,6 +203,18 @@ func c03ports() []c03case {
 			}
 		}
 	}
+	// two specs of one list that only collide once expanded: the list denotes the same ports as its long form
+	p := func(t, pub int, proto string) string {
+		return fmt.Sprintf("      - {mode: ingress, target: %d, published: \"%d\", protocol: %s}\n", t, pub, proto)
+	}
+	out = append(out,
+		c03case{id: "ports/overlap/range+single", short: "    ports: [\"8080-8081:80-81\", \"8081:81\"]\n", long: "    ports:\n" + p(80, 8080, "tcp") + p(81, 8081, "tcp"), kind: "eq"},
+		c03case{id: "ports/overlap/single+range", short: "    ports: [\"8081:81\", \"8080-8081:80-81\"]\n", long: "    ports:\n" + p(80, 8080, "tcp") + p(81, 8081, "tcp"), kind: "eq"},
+		c03case{id: "ports/overlap/range+range", short: "    ports: [\"8080-8082:80-82\", \"8081-8083:81-83\"]\n", long: "    ports:\n" + p(80, 8080, "tcp") + p(81, 8081, "tcp") + p(82, 8082, "tcp") + p(83, 8083, "tcp"), kind: "eq"},
+		c03case{id: "ports/overlap/proto-implicit+explicit", short: "    ports: [\"8080:80\", \"8080:80/tcp\"]\n", long: "    ports:\n" + p(80, 8080, "tcp"), kind: "eq"},
+		c03case{id: "ports/overlap/short+long", short: "    ports:\n      - \"8080:80\"\n      - {target: 80, published: \"8080\"}\n", long: "    ports:\n" + p(80, 8080, "tcp"), kind: "eq"},
+		c03case{id: "ports/overlap/udp-distinct", short: "    ports: [\"8080:80\", \"8080:80/udp\"]\n", long: "    ports:\n" + p(80, 8080, "tcp") + p(80, 8080, "udp"), kind: "eq"},
+	)
 	out = append(out, c03case{id: "ports/int", short: "    ports: [3000]\n", long: "    ports:\n      - {mode: ingress, target: 3000, protocol: tcp}\n", kind: "eq"})
 	for _, bad := range []string{"abc", "70000", "8000:abc", "3002-3000", "8000-8001:3000-3002", "3000/xyz", "8000::3000:1", ":", "1.2.3.4:8000"} {
 		k := "err"
@@ -323,7 +335,7 @@ func c03volumes() []c03case {
 func isSel(m string) bool  { return m == "z" || m == "Z" }
 func isProp(m string) bool { return m == "shared" || m == "rslave" || m == "rprivate" }
 
-func c03misc() []c03case {
+func c03misc(quick bool) []c03case {
 	var out []c03case
 	eq := func(id, short, long string) { out = append(out, c03case{id: id, short: short, long: long, kind: "eq"}) }
 	bad := func(id, short string) { out = append(out, c03case{id: id, short: short, kind: "err"}) }
@@ -440,6 +452,11 @@ func c03misc() []c03case {
 			seqs = append(seqs, []int{i, j})
 			for k := range words {
 				seqs = append(seqs, []int{i, j, k})
+				if !quick {
+					for l := range words {
+						seqs = append(seqs, []int{i, j, k, l})
+					}
+				}
 			}
 		}
 	}
@@ -504,9 +521,9 @@ func c03overrides() []c03case {
 func (c03) Run(c *core.Ctx) {
 	var cases []c03case
 	cases = append(cases, c03overrides()...)
-	cases = append(cases, c03ports()...)
+	cases = append(cases, c03ports(c.Quick())...)
 	cases = append(cases, c03volumes()...)
-	cases = append(cases, c03misc()...)
+	cases = append(cases, c03misc(c.Quick())...)
 	for _, cs := range cases {
 		if c.Expired() {
 			return
